@@ -274,6 +274,13 @@ func (p *parser) optionalSemicolon() {
 
 func (p *parser) semicolon() {
 	if p.token != token.RIGHT_PARENTHESIS && p.token != token.RIGHT_BRACE {
+		if p.token == token.SEMICOLON {
+			// An explicit semicolon ends the statement, also when it follows a
+			// line break ("debugger\n;" is one statement, not two).
+			p.implicitSemicolon = false
+			p.next()
+			return
+		}
 		if p.implicitSemicolon {
 			p.implicitSemicolon = false
 			return
